@@ -1513,6 +1513,12 @@ cdef class NNPS(NNPSBase):
             for cache in self.cache:
                 cache.update()
 
+        # _refresh/_bin may have re-allocated the per-array structures that
+        # the current context points into; re-establish it so that a query
+        # for the same (src, dst) pair needs no new call to set_context.
+        if self.current_cache is not None:
+            self.set_context(self.src_index, self.dst_index)
+
     cdef void get_nearest_neighbors(self, size_t d_idx, UIntArray nbrs) noexcept nogil:
         if self.use_cache:
             self.current_cache.get_neighbors_raw(d_idx, nbrs)
